@@ -644,6 +644,16 @@ def unsat_programs(tier, rnd):
         [E(["<", a, lit(0)])], [E([">", a, lit(255)])], [E(["<", a, b]), E(["==", b, lit(0)])],
         [E([">", a, b]), E(["==", b, lit(255)])], [E([">", a, b]), E([">", b, c]), E(["==", c, lit(127)]), E(["<", a, lit(129)])],
     ]
+    # a field whose inferred domain is emptied (in-list outside the type / contradictory lists) related to another
+    # variable by every comparison shape: the bound propagators read the other side's (empty) domain
+    empt = [[E(["in", a, [lit(300), lit(400)]])], [E(["in", c, [["rng", lit(200), lit(210)]]])], [E(["in", a, [lit(3), lit(9)]]), E(["in", a, [lit(4), lit(10)]])]]
+    for em in empt:
+        v = em[0][1][1]
+        for op in ("<", "<=", ">", ">="):
+            for l, r in ((v, b), (b, v), (v, v), (["+", v, lit(1)], b), (b, ["-", v, lit(1)])):
+                st = em + [E([op, l, r])]
+                if _stmts_in_F(st, f3):
+                    progs.append(st)
     for st in progs:
         out.append(spec_single("satedge", "%s" % (st,), f3, st, calls=("randomize", "vsc_randomize", "randomize_with")))
     for n in (3, 4, 5):
@@ -1280,6 +1290,35 @@ def c20_programs(tier, sd):
             ops += [["set", ["top", "n"], nv], ["randomize", ["top"]], ["randomize_with", ["top"], [E(["!=", b, lit(2)])]]]
         ops += [["vsc_randomize", [["top"]]]]
         out.append({"tag": "order", "desc": "solve_order %s" % (body,), "prog": pr, "world": [["top", "obj", "Top"]], "ops": ops})
+    # seeded random constraint systems over small-domain fields with random acyclic ordering directives
+    for i in range(40 if tier == "quick" else 1500):
+        nf = rnd.randint(3, 5)
+        fields = []
+        for j in range(nf):
+            fields.append(fld("abcde"[j], (rnd.choice("us"), rnd.randint(1, 4)) if rnd.random() < 0.8 else (rnd.choice("us"), rnd.choice([5, 8])), j < nf - 1 or rnd.random() < 0.6))
+        stmts = []
+        for _ in range(rnd.randint(1, 4)):
+            r = rnd.random()
+            if r < 0.6:
+                stmts.append(E(rand_expr(rnd, fields, 2, True)))
+            elif r < 0.8:
+                stmts.append(["if", [[rand_expr(rnd, fields, 1, True), [E(rand_expr(rnd, fields, 1, True))]]],
+                              [E(rand_expr(rnd, fields, 1, True))] if rnd.random() < 0.5 else None])
+            else:
+                stmts.append(["implies", rand_expr(rnd, fields, 1, True), [E(rand_expr(rnd, fields, 2, True))]])
+        rf = [f[0] for f in fields if f[3]]
+        rnd.shuffle(rf)
+        for _ in range(rnd.randint(1, 3)):
+            cut = rnd.randint(1, len(rf) - 1)
+            bef = rnd.sample(rf[:cut], rnd.randint(1, min(2, cut)))
+            aft = rnd.sample(rf[cut:], rnd.randint(1, min(2, len(rf) - cut)))
+            stmts.insert(rnd.randint(0, len(stmts)), O(bef, aft))
+        ops = []
+        for f in fields:
+            if not f[3]:
+                ops.append(["set", ["top", f[0]], rnd.choice(boundary_values(f[2], f[1] == "s"))])
+        ops += [["randomize", ["top"]], ["randomize", ["top"]], ["randomize_with", ["top"], [E(rand_expr(rnd, fields, 1, True))]]]
+        out.append({"tag": "order_random", "desc": "seeded random ordered system #%d" % i, "prog": one_class(fields, stmts), "world": [["top", "obj", "Top"]], "ops": ops})
     # ordering over list elements / list before scalar
     lf = [["l", "list", ["u", 3], 2, True, False], fld("b", ("u", 4)), fld("a", ("u", 2))]
     body = [["foreach", ["l"], "i", [E(["<", ["it", "i"], b])]], ["order", [["l"]], [["b"]]], E(["<", a, F("l", 0)]), ["order", [["a"]], [["l"]]]]
